@@ -1,6 +1,7 @@
 import Driver.Common
 import Lean.Elab.Deriving.FromToJson
 import Canine.Notif.Model
+import Canine.Genesis.Modules
 open Lean (Json FromJson ToJson fromJson? toJson)
 namespace Canine.Notif
 deriving instance FromJson, ToJson for Seg
@@ -9,6 +10,10 @@ deriving instance FromJson, ToJson for Entry
 deriving instance FromJson, ToJson for State
 deriving instance FromJson, ToJson for Op
 end Canine.Notif
+namespace Canine.Genesis.Notif
+deriving instance FromJson, ToJson for BlockRec
+deriving instance FromJson, ToJson for GenesisState
+end Canine.Genesis.Notif
 
 namespace Driver.Notif
 open Canine Canine.Notif Driver
@@ -33,7 +38,18 @@ def check (j : Json) : Except String (Option String) := do
     [cmpField "allNotifications" (canonNotifs (allNotifications post)) (canonNotifs all)])
   -- a restart of the network from its own exported genesis changes nothing the module holds
   if let .ok (.str "restart") := getField j "op" then
-    return allSome [cmpField "store" (canonStore pre.store) (canonStore post.store), listing]
+    let gd : Option String ←
+      match j.getObjVal? "genesis" with
+      | .ok gj =>
+        if gj.isNull then pure none else do
+        let g : Genesis.Notif.GenesisState ← fromJson? gj
+        let m := Genesis.Notif.exportGenesis pre
+        let imported := Genesis.Notif.initGenesis (Genesis.Notif.blank pre) g
+        pure (allSome [cmpField "genesis.notifications" m.notifications g.notifications, cmpField "genesis.blocks" m.blocks g.blocks,
+          cmpField "genesis.validate" (Genesis.Notif.validate g) true,
+          (cmpField "store" (canonStore imported.store) (canonStore post.store)).map (fun d => "genesis.import " ++ d)])
+      | .error _ => pure none
+    return allSome [cmpField "store" (canonStore pre.store) (canonStore post.store), listing, gd]
   let op : Op ← getField j "op" >>= fromJson?
   let now : Int ← getField j "now" >>= fromJson?
   let ok : Bool ← getField j "ok" >>= fromJson?
